@@ -200,6 +200,24 @@ theorem pairCore_of_lt (rel : PoseRelation) (ref est : List (Pose Rat)) (p : Nat
   simp only [pairCore, pairPoses, List.getElem?_eq_getElem h1, List.getElem?_eq_getElem h2,
     List.getElem?_eq_getElem h3, List.getElem?_eq_getElem h4, Option.map_some]
 
+instance : Inhabited (Pose Rat) := ⟨Pose.one⟩
+
+/-- with valid indices every kept pair yields its value: the values are a `map` over the kept pairs -/
+theorem rpe_values_eq_map (rel : PoseRelation) {pairs : List (Nat × Nat)} {ref est : List (Pose Rat)}
+    (hl : ref.length = est.length) (hidx : ∀ p ∈ pairs, p.1 < ref.length ∧ p.2 < ref.length)
+    (kept : List (Nat × Nat)) (hk : ∀ p ∈ kept, p ∈ pairs) :
+    kept.filterMap (pairCore rel ref est)
+      = kept.map (fun p => rpeCore rel ref[p.1]! ref[p.2]! est[p.1]! est[p.2]!) := by
+  rw [← List.filterMap_eq_map]
+  apply List.filterMap_congr
+  intro p hp
+  have hp' := hidx p (hk p hp)
+  have h3 : p.1 < est.length := hl ▸ hp'.1
+  have h4 : p.2 < est.length := hl ▸ hp'.2
+  rw [pairCore_of_lt rel ref est p hp'.1 hp'.2 h3 h4]
+  simp only [Function.comp, getElem!_pos ref p.1 hp'.1, getElem!_pos ref p.2 hp'.2,
+    getElem!_pos est p.1 h3, getElem!_pos est p.2 h4]
+
 theorem keptPairs_sublist (rel : PoseRelation) (ref : List (Pose Rat)) (pairs : List (Nat × Nat)) :
     (keptPairs rel ref pairs).Sublist pairs := by
   unfold keptPairs
